@@ -169,6 +169,13 @@ func genNames(r *rand.Rand) []string {
 	return out
 }
 
+type heldE struct {
+	b, c  []byte
+	names []string
+}
+
+var heldEnc []heldE
+
 // judgeNames: encoding any list of valid names and decoding it returns the same list; the bytes are the RFC encoding.
 func judgeNames(r *mon.Rec, idx int) {
 	rng := r.Rand("names", idx)
@@ -198,6 +205,18 @@ func judgeNames(r *mon.Rec, idx int) {
 	if want := reflabel.Encode(names); !bytes.Equal(enc, want) {
 		r.Violate("C19:encoding-not-rfc", fmt.Sprintf("encoding of %.100q is %x, RFC 1035 encoding is %x", names, trunc(enc), trunc(want)), rp)
 		return
+	}
+	// encodings the caller still holds (to decode them later, to put them into a packet) are not touched by later encodes
+	for _, h := range heldEnc {
+		if !bytes.Equal(h.b, h.c) {
+			r.Violate("C19:earlier-encoding-changed", fmt.Sprintf("the bytes returned by an earlier ToBytes (of %.80q) changed while %.80q was encoded: decoding them no longer returns the names that were encoded", h.names, names), rp)
+			heldEnc = nil
+			return
+		}
+	}
+	heldEnc = append(heldEnc, heldE{enc, append([]byte{}, enc...), names})
+	if len(heldEnc) > 6 {
+		heldEnc = heldEnc[len(heldEnc)-6:]
 	}
 	maxl := 0
 	for _, n := range names {
@@ -457,6 +476,7 @@ func TestCheck(t *testing.T) {
 		judgeBytes(r, "mut", mutate(rng, reflabel.Encode(genNames(rng))))
 		judgeBytes(r, "web", reflabel.Web(rng))
 		judgeBytes(r, "boundary", reflabel.Boundary(rng))
+		judgeBytes(r, "far-pointer", reflabel.FarPointer(rng))
 	}
 	// (3b) committed corpus: replay + mutants
 	corp := mon.Corpus("label")
